@@ -160,9 +160,9 @@ var noInitPkgs = map[string]bool{
 	"internal/poll": true, "internal/godebug": true, "crypto/tls": true, "net/http": true, "log": true,
 	"fmt": true, "crypto/md5": true, "crypto/sha256": true, "crypto": true, "math/rand": true,
 	"internal/bytealg": true, "unsafe": true, "testing": true, "crypto/x509": true,
-	"github.com/prometheus/client_golang/prometheus": true,
+	"github.com/prometheus/client_golang/prometheus":          true,
 	"github.com/prometheus/client_golang/prometheus/promauto": true,
-	"golang.org/x/net/http2": true,
+	"golang.org/x/net/http2":                                  true,
 }
 
 // runDefer runs a deferred call d.
